@@ -61,6 +61,11 @@ class NeedChoice(BaseException):
         self.n = n
 
 
+class HarnessLimit(BaseException):
+    """The code under test uses something the harness cannot control: the job ends as a harness
+    error (inconclusive, exit code 3), never as a violation."""
+
+
 class InfeasibleShard(BaseException):
     """The pinned shard prefix does not fit the decisions this path asks for."""
 
@@ -216,6 +221,32 @@ def current_ctx():
     return _CURRENT[0]
 
 
+_MEMO = [None]
+
+
+def _memoised_callables():
+    """Module- and class-level memoising callables of eliot (functools.lru_cache / cache): their
+    caches are emptied at the start of every path, so that a path's outcome depends on that path
+    alone (and replays in a fresh process)."""
+    if _MEMO[0] is None:
+        import sys as _sys
+
+        found = []
+        for name, mod in list(_sys.modules.items()):
+            if mod is None or not (name == "eliot" or name.startswith("eliot.")):
+                continue
+            for v in list(vars(mod).values()):
+                holders = [v]
+                if isinstance(v, type) and getattr(v, "__module__", "").startswith("eliot"):
+                    holders += list(vars(v).values())
+                for h in holders:
+                    h = getattr(h, "__func__", h)
+                    if callable(getattr(h, "cache_clear", None)) and callable(getattr(h, "cache_info", None)):
+                        found.append(h)
+        _MEMO[0] = found
+    return _MEMO[0]
+
+
 class isolation:
     """Fresh eliot global state for one path (DESIGN 1.3)."""
 
@@ -244,6 +275,8 @@ class isolation:
         _action.uuid4 = ctx.uuid4
         _message.Message._time = ctx.clock
         warnings.simplefilter("ignore")
+        for f in _memoised_callables():
+            f.cache_clear()
         return ctx
 
     def __exit__(self, *a):
@@ -331,7 +364,7 @@ def run(body, mode, params):
             from crosshair.util import IgnoreAttempt
 
             raise IgnoreAttempt("infeasible shard")
-        except (ControlFlowException, NotDeterministic):
+        except (ControlFlowException, NotDeterministic, HarnessLimit):
             raise
         except BaseException as e:
             import traceback
